@@ -358,8 +358,10 @@ func (c *c16Conn) Write(p []byte) (int, error) {
 				return 0, errC16Write
 			}
 		case 0xE0:
-			if r := c.ctl.park("DW"); r.fail {
-				return 0, errC16Write
+			if c16gid() != atomic.LoadInt64(&c.ctl.gidAux) { // a further Disconnect runs through ungated
+				if r := c.ctl.park("DW"); r.fail {
+					return 0, errC16Write
+				}
 			}
 		}
 	}
@@ -658,7 +660,12 @@ func (s *c16Scn) do(m int) bool {
 		s.tl.tev(0, fmt.Sprintf("(TPeerAck %d %d)", s.ackFlags, code))
 		n := c.idle
 		s.conn.send([]byte{0x20, 2, byte(s.ackFlags), byte(code)})
-		if !c.wait("reader consumes CONNACK", nil, func() bool { return c.idle > n }) {
+		// Connect (if it is in its select) may reach its Active callback before the reader is idle again
+		var holdCA []string
+		if s.cSt == "sel" {
+			holdCA = []string{"CA"}
+		}
+		if !c.wait("reader consumes CONNACK", holdCA, func() bool { return c.idle > n }) {
 			return false
 		}
 		// the label is computed inside Coq from the bytes sent (connack_parse: connack.go Parse)
@@ -859,7 +866,13 @@ func (s *c16Scn) do(m int) bool {
 			c.events <- c16Ev{kind: "aux", err: err}
 		}()
 		<-started
-		if !c.wait("a further Disconnect returns", nil, func() bool { return c.aux }) {
+		// its Transport.Close makes the reader fail: the reader may arrive at its own Close (SC)
+		// before this call has returned - that park is expected and kept
+		var hold []string
+		if s.sSt == "rd" {
+			hold = []string{"SC"}
+		}
+		if !c.wait("a further Disconnect returns", hold, func() bool { return c.aux }) {
 			return false
 		}
 		s.tl.step(0, "LXDiscUpdate")
@@ -1460,6 +1473,35 @@ func runC16(cfg *runCfg) error {
 	nontrivial := 0
 	macroCount := map[string]int{}
 	stuckN := 0
+	// a bc scenario in which a wait expired is re-run (same steps, same parameters) before it is
+	// believed: a real blockage repeats, a stall of the machine does not. If the re-run is clean
+	// the expiries of the first run are not counted.
+	reruns := 0
+	runBC := func(prefix []int, endKind, refuseCode, drainOrder, hmode, ackFlags, extra int, choose func(valid []int) int) c16Result {
+		before := atomic.LoadInt32(&c16Expired)
+		res := c16RunBC(prefix, endKind, refuseCode, drainOrder, hmode, ackFlags, extra, choose)
+		if res.stuck == "" {
+			return res
+		}
+		var steps []int
+		for _, name := range res.macros {
+			for i, n := range c16MacroName {
+				if n == name {
+					steps = append(steps, i)
+				}
+			}
+		}
+		added := atomic.LoadInt32(&c16Expired) - before
+		atomic.AddInt32(&c16Expired, -added) // full limit for the re-run
+		reruns++
+		res2 := c16RunBC(steps, endKind, refuseCode, drainOrder, hmode, ackFlags, 0, nil)
+		if res2.stuck == "" && len(res2.macros) >= len(res.macros) {
+			res2.next = nil
+			return res2
+		}
+		atomic.AddInt32(&c16Expired, added)
+		return res
+	}
 	addBC := func(res c16Result, fam string, managed bool) {
 		key := strings.Join(res.items, ";")
 		if !distinct[key] {
@@ -1509,7 +1551,7 @@ func runC16(cfg *runCfg) error {
 				skipped++
 				continue
 			}
-			res := c16RunBC(p, ek, c16Codes[(i+ek)%len(c16Codes)], i, (i+ek)%2, c16Flags[(i+2*ek)%len(c16Flags)], 0, nil)
+			res := runBC(p, ek, c16Codes[(i+ek)%len(c16Codes)], i, (i+ek)%2, c16Flags[(i+2*ek)%len(c16Flags)], 0, nil)
 			addBC(res, "bc", false)
 		}
 	}
@@ -1537,7 +1579,7 @@ func runC16(cfg *runCfg) error {
 		default: // CONNACK arrives while Connect is still writing
 			p = []int{mStartConnect, ack, mRelCWok, mRelCA, mPeerEnd, mRelSC, mRelSU}
 		}
-		res := c16RunBC(p, 0, code, 0, variant%2, flags, 0, nil)
+		res := runBC(p, 0, code, 0, variant%2, flags, 0, nil)
 		addBC(res, "bc", false)
 		nSweep++
 	}
@@ -1577,7 +1619,7 @@ func runC16(cfg *runCfg) error {
 		if sum%4 == 1 {
 			hm = 1
 		}
-		res := c16RunBC(prefix, sum%c16EndKinds, c16Codes[sum%len(c16Codes)], len(prefix), hm, c16Flags[(sum/3)%len(c16Flags)], 0, nil)
+		res := runBC(prefix, sum%c16EndKinds, c16Codes[sum%len(c16Codes)], len(prefix), hm, c16Flags[(sum/3)%len(c16Flags)], 0, nil)
 		if len(prefix) > 0 {
 			addBC(res, "bc", false)
 		}
@@ -1601,7 +1643,7 @@ func runC16(cfg *runCfg) error {
 		if rnd.Intn(4) == 0 {
 			hm = 1
 		}
-		res := c16RunBC(nil, rnd.Intn(c16EndKinds), 1+rnd.Intn(255), rnd.Intn(3), hm, rnd.Intn(256), 6+rnd.Intn(10), func(v []int) int { return v[rnd.Intn(len(v))] })
+		res := runBC(nil, rnd.Intn(c16EndKinds), 1+rnd.Intn(255), rnd.Intn(3), hm, rnd.Intn(256), 6+rnd.Intn(10), func(v []int) int { return v[rnd.Intn(len(v))] })
 		addBC(res, "bc", false)
 	}
 	// family rc
@@ -1691,6 +1733,7 @@ func runC16(cfg *runCfg) error {
 	m.Distribution["macro_steps"] = macroCount
 	m.Distribution["scenarios_in_which_a_wait_expired"] = stuckN + rcStuck
 	m.Distribution["waits_expired"] = atomic.LoadInt32(&c16Expired)
+	m.Distribution["bc_scenarios_rerun_after_an_expired_wait"] = reruns
 	m.Distribution["scenarios_skipped_after_expired_waits"] = skipped
 	m.Exhaustive = true
 	if err := cf.write(cfg.outDir); err != nil {
